@@ -23,6 +23,7 @@ import (
 	"verif.local/harness/px"
 	"verif.local/seqx"
 	"verif.local/vrt"
+	"verif.local/vrt/vctx"
 )
 
 // ---------------------------------------------------------------- part 1: white-box BFS on the dependency database
@@ -595,8 +596,9 @@ func concScenario(reg int, bounds []int) explore.Scenario {
 		Name:   fmt.Sprintf("conc/register-%s-vs-delivery", d.name),
 		Desc:   fmt.Sprintf("runtime started with c1 (input %s); a writer creates %s/a and %s/b while %s is registered concurrently; every schedule up to the preemption bound: no goroutine panics, c1 is woken, the graph equals the model, a rejected registration leaves nothing behind", t1, t1, t1, d.name),
 		Bounds: bounds,
+		HB:     true,
 		Body: func(x *explore.X) {
-			ctx, cancel := context.WithCancel(context.Background())
+			ctx, cancel := vctx.WithCancel(context.Background())
 			st := state.WrapCore(namespaced.NewState(inmem.Build))
 			rt, err := runtime.NewRuntime(st, zap.NewNop(), options.WithMetrics(false))
 			if err != nil {
@@ -619,6 +621,7 @@ func concScenario(reg int, bounds []int) explore.Scenario {
 			var newProbe *px.Probe
 			var newQ *px.QProbe
 			vrt.GoNamed("registrar", func() {
+				vrt.TouchKey("c17.reg", true)
 				if d.q {
 					newQ = &px.QProbe{NameV: d.name, SettingsV: controller.QSettings{Inputs: d.inputs, Outputs: d.outputs}}
 					if d.conc == -1 {
@@ -628,9 +631,11 @@ func concScenario(reg int, bounds []int) explore.Scenario {
 						return nil, nil
 					}
 					rerr = rt.RegisterQController(newQ)
+					vrt.TouchKey("c17.reg", true)
 				} else {
 					newProbe = &px.Probe{NameV: d.name, InputsV: d.inputs, OutputsV: d.outputs}
 					rerr = rt.RegisterController(newProbe)
+					vrt.TouchKey("c17.reg", true)
 				}
 			})
 			vrt.GoNamed("writer", func() {
@@ -644,6 +649,8 @@ func concScenario(reg int, bounds []int) explore.Scenario {
 			})
 			vrt.WaitQuiescent()
 			vrt.Branching(false)
+			vrt.TouchKey("c17.reg", true)
+			vrt.TouchKey("px.records", false)
 			want := accept(m, registered, d)
 			if (rerr == nil) != want {
 				x.FailKey("conc/verdict", "registration of %s under concurrent delivery: err=%v, model accepts=%v", d.name, rerr, want)
@@ -748,19 +755,26 @@ func build(tier string) []explore.Scenario {
 	for i := range decls() {
 		out = append(out, apiScenario(i, maxLen))
 	}
-	cb := []int{0, 1}
+	cb := []int{0, 1, 2}
 	if tier == "thorough" {
-		cb = []int{0, 1, 2}
+		cb = []int{0, 1, 2, 3}
 	}
 	for i, d := range decls() {
 		if d.update || i == 0 || d.name == "c1" {
 			continue
 		}
 		b := cb
-		if tier != "thorough" && d.name == "q2-kind" {
-			b = []int{0} // an accepted queue controller starts workers: bound 1 is the thorough tier's
+		sc := concScenario(i, b)
+		if d.name == "q1" {
+			// the one accepted queue controller: it starts workers, the schedule space is two orders larger
+			sc.Bounds = []int{0}
+			sc.MaxExecs = 60000
+			if tier == "thorough" {
+				sc.Bounds = []int{0, 1}
+				sc.MaxExecs = 6000000
+			}
 		}
-		out = append(out, concScenario(i, b))
+		out = append(out, sc)
 	}
 	return out
 }
